@@ -35,10 +35,11 @@ const (
 	KRand                 // math/rand values
 	KGen                  // workload generation (harness)
 	KFault                // harness level fault decisions (cut offsets, stop times, clock jumps)
+	KPrio                 // PCT mode: task priorities
 	NumKinds
 )
 
-var KindNames = [NumKinds]string{"sched", "schedU", "gap", "select", "timeskip", "drop", "dup", "delay", "seg", "coalesce", "rand", "gen", "fault"}
+var KindNames = [NumKinds]string{"sched", "schedU", "gap", "select", "timeskip", "drop", "dup", "delay", "seg", "coalesce", "rand", "gen", "fault", "prio"}
 
 // NumProbes is the number of rare-condition counters a run carries (names are owned by sim/net and the harness).
 const NumProbes = 64
@@ -112,6 +113,7 @@ type Task struct {
 	parent    *Task
 	exitTok   byte
 	selTok    byte
+	prio      int64
 	panicVal  string
 	// select parking
 	sel       []SelCase
@@ -146,6 +148,11 @@ type Config struct {
 	MaxSteps int64
 	Verbose  bool
 	NPoints  int
+	// PCT: priority-based scheduling (Burckhardt et al., "A randomized scheduler with probabilistic guarantees of
+	// finding bugs"): every task gets a random priority, the highest-priority ready task always runs, and at a few
+	// random points the running task is demoted below everybody. Finds ordering bugs of small depth (one task running
+	// far ahead of another) that a random walk over ready tasks reaches only with tiny probability.
+	PCT bool
 	// generation biases, 0..65536, per kind (probability of a non-boring value)
 	Bias [NumKinds]uint32
 }
@@ -183,12 +190,14 @@ type World struct {
 	ev    *Event
 	evSeq uint64
 
-	seq    uint64
-	serial uint64
-	epoch  uint64
-	hash   uint64
-	Quiet  bool // quiet phase: no time skipping, no faults (harness sets it)
-	NoSkip bool
+	seq     uint64
+	serial  uint64
+	evPrio  int64 // PCT: priority of "deliver a due event"
+	lowPrio int64 // PCT: next demotion priority (decreasing)
+	epoch   uint64
+	hash    uint64
+	Quiet   bool // quiet phase: no time skipping, no faults (harness sets it)
+	NoSkip  bool
 
 	aborting bool
 	ended    bool
@@ -278,7 +287,7 @@ func Choose(n int, k Kind) int {
 	} else {
 		r := w.next64()
 		switch k {
-		case KSchedU, KSelect, KGen, KRand:
+		case KSchedU, KSelect, KGen, KRand, KPrio:
 			v = int((r >> 16) % uint64(n))
 		default:
 			if uint32(r&0xFFFF) < w.cfg.Bias[k] {
@@ -450,6 +459,14 @@ func (w *World) newTask(name, site string, sut bool) *Task {
 	if w.cur != nil {
 		t.Host = w.cur.Host
 		t.parent = w.cur
+	}
+	if w.cfg.PCT {
+		if t.ID == 0 {
+			t.prio = 1 << 15
+			w.evPrio = int64(1 + Choose(1<<16, KPrio))
+		} else {
+			t.prio = int64(1 + Choose(1<<16, KPrio))
+		}
 	}
 	if w.tasksTail == nil {
 		w.tasks = t
@@ -751,7 +768,22 @@ func (w *World) pick(cur *Task, preempt bool) *Task {
 				continue
 			}
 		}
-		if curReady && !preempt {
+		if w.cfg.PCT && !w.Quiet {
+			best := -1
+			for i := 0; i < nt; i++ {
+				if best < 0 || cands[i].prio > cands[best].prio {
+					best = i
+				}
+			}
+			if ne > 0 && (best < 0 || w.evPrio > cands[best].prio) {
+				k = nt
+				if ne > 1 {
+					k = nt + Choose(ne, KSchedU) // datagrams may still overtake each other
+				}
+			} else {
+				k = best
+			}
+		} else if curReady && !preempt {
 			k = Choose(total, KSched)
 		} else {
 			k = Choose(total, KSchedU)
@@ -998,7 +1030,13 @@ func Point(id int) {
 				Tracef("PREEMPT at point %d", id)
 			}
 			t.state = stRunnable
-			w.resched(t, true)
+			if w.cfg.PCT {
+				w.lowPrio--
+				t.prio = w.lowPrio // a priority change point: everybody else now goes first
+				w.resched(t, false)
+			} else {
+				w.resched(t, true)
+			}
 			w.afterResume(t)
 		}
 		return
@@ -1026,6 +1064,10 @@ func (w *World) spinYield(t *Task, burn bool) {
 		}
 	}
 	t.state = stRunnable
+	if w.cfg.PCT {
+		w.lowPrio--
+		t.prio = w.lowPrio
+	}
 	w.resched(t, true)
 	t.gap = 0
 }
